@@ -327,7 +327,9 @@ impl Phase for Pairs {
             },
             8 => {
                 // a value-producing snippet of each type, so that every Ok variant meets every entry point
-                r.pick(&["\"str\"", "4", "2.5", "true", "(1, 2.5, \"x\")", "()", "x = 3", "1;", "len(\"abc\")", "1/0", "nosuch(1)", "u", "5 + 1.0", "\"a\" + \"b\"", "(1,2) == (1,2)", "!true", "x0", "x1 = x0", "min(4, 2)", "len(\"abc\") + 1", "typeof(x)", "max(1, 3) == 3", "x", "y", "x2", "math::pi", "math::e + 1", "math::tau", "PI", "E", "pi", "e", "nan", "inf", "a = math::pi", "answer", "version", "_", "x == x", "x0 == x0", "x1 != x1", "x2 == x2", "(x, 1) == (x, 1)", "x >= x"])
+                r.pick(&["\"str\"", "4", "2.5", "true", "(1, 2.5, \"x\")", "()", "x = 3", "1;", "len(\"abc\")", "1/0", "nosuch(1)", "u", "5 + 1.0", "\"a\" + \"b\"", "(1,2) == (1,2)", "!true", "x0", "x1 = x0", "min(4, 2)", "len(\"abc\") + 1", "typeof(x)", "max(1, 3) == 3", "x", "y", "x2", "math::pi", "math::e + 1", "math::tau", "PI", "E", "pi", "e", "nan", "inf", "a = math::pi", "answer", "version", "_", "x == x", "x0 == x0", "x1 != x1", "x2 == x2", "(x, 1) == (x, 1)", "x >= x",
+                    // assignment targets that are not identifiers in the source text
+                    "\"a\" = 5; a * 2", "\"x\" = 1; x", "(\"a\") = 2; a", "\"x\" += 1", "\"a\" = 5", "\"a b\" = 1", "str::from(\"x\") = 4; x", "(x) = 3; x"])
                     .to_string()
             },
             9 if r.chance(1, 2) => {
